@@ -109,6 +109,13 @@ func genC03(seed uint64, idx int) *Plan {
 		}
 	}
 	p.ErrWithData = idx%3 == 2
+	if idx%16 == 13 {
+		// the reconstructed hello fills a plaintext record to the last octet (or
+		// stops one or a few short of it)
+		p.InnerMsgLen = []int{16384, 16384, 16383, 16380, 12000}[(idx/16)%5]
+		p.Compress, p.ExtraIn = true, max(p.ExtraIn, 4)
+		p.Mutations = nil
+	}
 	if idx%5 == 0 {
 		// a legacy_version of the client's own choosing in the inner hello
 		p.LegacyVer = []uint16{0x0301, 0x0302, 0x0304, 0x0300}[(idx/5)%4]
